@@ -45,19 +45,24 @@ func (schedArea) Gen(r *hx.Rng, n int, _ string, emit func(string)) {
 		if r.Chance(1, 6) {
 			w = append(w, "F")
 		}
-		for k := r.Range(4, 14); k > 0; k-- {
+		// few permits and few concurrent pairs: the set of outcomes the protocol allows stays small, so the verdict is sharp
+		permits, pairs := r.Intn(4), r.Intn(3)
+		for k := r.Range(4, 12); k > 0; k-- {
 			c := r.Intn(100)
 			switch {
-			case c < 55:
-				w = append(w, "h"+strconv.Itoa(r.Intn(nprod)))
-			case c < 70 && nprod > 1:
+			case c < 15 && nprod > 1 && pairs > 0:
+				pairs--
 				a := r.Intn(nprod)
 				b := (a + 1 + r.Intn(nprod-1)) % nprod
 				w = append(w, "c"+strconv.Itoa(a)+"."+strconv.Itoa(b))
-			case c < 90:
-				w = append(w, "w"+strconv.Itoa(r.Range(1, 3)))
-			default:
+			case c < 35 && permits > 0:
+				k2 := r.Range(1, permits)
+				permits -= k2
+				w = append(w, "w"+strconv.Itoa(k2))
+			case c < 45:
 				w = append(w, "s")
+			default:
+				w = append(w, "h"+strconv.Itoa(r.Intn(nprod)))
 			}
 		}
 		emit(strings.Join(w, " "))
